@@ -140,6 +140,23 @@ func main() {
 			}
 			return
 		}
+		if *dump == "lex" {
+			c := &Ctx{P: p, R: newReport("dump", "quick", 0)}
+			if !c.tables() {
+				fmt.Println("tables failed")
+				return
+			}
+			for _, lr := range c.Lex.Rules {
+				for _, t := range lr.Tokens {
+					var ops []string
+					for _, o := range t.Ops {
+						ops = append(ops, o.Type)
+					}
+					fmt.Printf("%-3d %-45q kind=%-22s flag=%-7s ops=%s\n", lr.Index, lr.Pattern, t.Kind, t.Flag, strings.Join(ops, ","))
+				}
+			}
+			return
+		}
 		if *dump == "prefs" {
 			c := &Ctx{P: p, R: newReport("dump", "quick", 0)}
 			for _, s := range pfSites(c) {
